@@ -92,6 +92,10 @@ impl PropCase for Complete {
                     format!("nth: {:?} ; skip+next: {:?}", a.as_ref().map(|r| r.as_ref().map(|_| "event").map_err(|e| e.name())), b.as_ref().map(|r| r.as_ref().map(|_| "event").map_err(|e| e.name())))
                 );
             }
+            let folded = Parser::new(x).fold(0usize, |k, r| k + r.is_ok() as usize);
+            let mut fe = 0usize;
+            Parser::new(x).for_each(|r| fe += r.is_ok() as usize);
+            ensure!(folded == n && fe == n, "streaming-iterator-adapters", format!("fold / for_each visit {} events", n), format!("{} / {}", folded, fe));
             let cnt = Parser::new(x).count();
             let last_ok = Parser::new(x).last().map(|r| r.is_ok());
             ensure!(
